@@ -275,12 +275,25 @@ def c19_check_reject(args):
     return res
 
 
+FORWARDED = [
+    # literals that reach uint! through macro_rules fragments (rustc wraps $e:expr / $l:literal in invisible groups)
+    ("fwd_expr!(5_U8)", (8, 5)), ("fwd_expr!((3_U65))", (65, 3)), ("fwd_lit!(0xff_U8)", (8, 255)), ("fwd_tt!(7_U9)", (9, 7)),
+    ("fwd_expr!(fwd_expr!(0b11_U2))", (2, 3)), ("fwd_expr!(id(0o17_U4))", (4, 15)), ("fwd_two!(1_U1, 1_U1)", (1, 0)), ("fwd_lit!(0xAB_B8).into_inner()", (8, 0xAB)),
+]
+
+
 def c19_misc_program():
     lines = ["#![allow(unused)]", "use ruint::{uint, Uint, Bits};",
              "fn ty<T>(_: &T) -> &'static str { std::any::type_name::<T>() }",
              "fn id<T>(x: T) -> T { x }",
              "fn show<const B: usize, const L: usize>(x: Uint<B, L>) -> String { format!(\"{} {:?}\", B, x.as_limbs()) }",
+             "macro_rules! fwd_expr { ($e:expr) => { uint! { $e } }; }",
+             "macro_rules! fwd_lit { ($l:literal) => { uint! { $l } }; }",
+             "macro_rules! fwd_tt { ($($t:tt)*) => { uint! { $($t)* } }; }",
+             "macro_rules! fwd_two { ($a:expr, $b:expr) => { uint! { $a ^ $b } }; }",
              "fn main() {"]
+    for k, (frag, _) in enumerate(FORWARDED):
+        lines.append(f"  {{ let a = {frag}; println!(\"F{k} {{}}\", show(a)); }}")
     for k, tok in enumerate(PASS_THROUGH):
         lines.append(f"  {{ let a = uint! {{ {tok} }}; let b = {tok}; println!(\"P{k} {{}} {{}}\", format!(\"{{:?}}\", a) == format!(\"{{:?}}\", b), ty(&a) == ty(&b)); }}")
         lines.append(f"  {{ let a = uint! {{ ((({{ [{tok}] }}))) }}; let b = ((({{ [{tok}] }}))); println!(\"Q{k} {{}} {{}}\", format!(\"{{:?}}\", a) == format!(\"{{:?}}\", b), ty(&a) == ty(&b)); }}")
@@ -307,7 +320,7 @@ def c19(tier, seed):
     src = os.path.join(d, "misc.rs")
     open(src, "w").write(c19_misc_program())
     rc, err = rustc(src, src[:-3])
-    nmisc = 2 * len(PASS_THROUGH) + len(NESTED_LITS)
+    nmisc = 2 * len(PASS_THROUGH) + len(NESTED_LITS) + len(FORWARDED)
     if rc != 0:
         viol.append(("pass-through", "pass-through / nesting program", "rejected at compile time", "compiles", err.strip()[:600]))
     else:
@@ -317,6 +330,10 @@ def c19(tier, seed):
             for tag in ("P", "Q"):
                 if seen.get(f"{tag}{k}") != "true true":
                     viol.append(("pass-through", tok + (" (nested 4 groups deep)" if tag == "Q" else ""), f"(value equal, type equal) = {seen.get(f'{tag}{k}')}", "identical to the same tokens outside the macro", ""))
+        for k, (frag, (w, v)) in enumerate(FORWARDED):
+            e = f"{w} {[(v >> (64 * i)) & (2 ** 64 - 1) for i in range((w + 63) // 64)]}"
+            if seen.get(f"F{k}") != e:
+                viol.append(("nesting", frag + " (forwarded through a macro_rules fragment)", str(seen.get(f"F{k}")), e, ""))
         for k, (frag, exp) in enumerate(NESTED_LITS):
             (w, v) = exp[0]
             e = f"{w} {[(v >> (64 * i)) & (2 ** 64 - 1) for i in range((w + 63) // 64)]}"
